@@ -187,11 +187,17 @@ CONSTS = {"c0": 0, "c1": 1, "c2": 300, "c3": 70000, "c4": 255, "big": 2 ** 40 + 
 def prelude():
     lines = [".const %s = %d" % (k, v) for k, v in CONSTS.items() if "." not in k]
     lines.append("s: { .const inner = 513 }")
+    lines.append('.const greeting = "hello"')
+    lines.append('.const empty_s = ""')
+    lines.append('.const joined = greeting + "!"')
     return "\n".join(lines) + "\n"
 
 
 def env_json():
     syms = [[[T(p) for p in k.split(".")], ["num", v]] for k, v in CONSTS.items()]
+    syms.append([[T("greeting")], ["str", T("hello")]])
+    syms.append([[T("empty_s")], ["str", []]])
+    syms.append([[T("joined")], ["str", T("hello!")]])
     return {"syms": syms, "pc": PC0}
 
 
@@ -371,6 +377,12 @@ def run(chk):
         ('.dword 100 / 10 / 5', [2, 0, 0, 0]), ('.dword 2 + 3 * 4', [14, 0, 0, 0]), ('.dword (2 + 3) * 4', [20, 0, 0, 0]),
         ('.dword 10 - 4 - 3', [3, 0, 0, 0]), ('.dword 256 >> 2 >> 1', [32, 0, 0, 0]), ('.dword 2 * 3 % 4', [2, 0, 0, 0]),
         ('.dword $0010 + %0101 + 007', [16 + 5 + 7, 0, 0, 0]), ('.dword true + TRUE * 0 + false', None),
+        # defined(x) is 1 exactly when x is defined -- whatever x is bound to: a number (also 0), a string (also ""), a label, a scope path
+        ('.byte defined(greeting)', [1]), ('.byte !defined(greeting)', [0]), ('.byte defined(empty_s)', [1]), ('.byte defined(joined)', [1]),
+        ('.byte defined(c0)', [1]), ('.byte defined(s.inner)', [1]), ('.byte defined(s.nope)', [0]),
+        ('.byte defined(greeting) + defined(c1) * 2 + defined(nope) * 4', [3]),
+        ('.text greeting + "!"', T("hello!")), ('.text joined', T("hello!")), ('.text "{greeting}/{c2}"', T("hello/300")),
+        ('.dword greeting == "hello"', [1, 0, 0, 0]), ('.dword greeting != joined', [1, 0, 0, 0]), ('.dword joined == (greeting + "!")', [1, 0, 0, 0]),
     ]
     for text, expect in fixed + str_cases:
         if expect is None:
@@ -397,8 +409,8 @@ def run(chk):
                        "(trees compared), evaluated by both evaluators and by the Coq spec (bytes of `.dword` compared); plus a fixed list of data-size, "
                        "string, interpolation and defined() cases. distinct = distinct text; non-trivial = at least one binary operator")
     chk.extra["distribution"] = dist
-    chk.assumptions = ["text encodings petscii/petscreen are not modelled yet (ascii only)",
-                       "the parse/print round trip is decided by correspondence of the two parsers on generated texts; the theorem in props/C03.v covers evaluation, literals, flags, modifiers and data emission"]
+    chk.assumptions = ["petscii/petscreen are specified for printable ASCII (32..126); other characters are compared model-vs-implementation only",
+                       "the parse/print round trip theorem covers the canonical single-space layout; arbitrary layout is compared between the two parsers on generated texts (and is C08's business)"]
     return chk.finish()
 
 
